@@ -302,7 +302,21 @@ CLAIMED["C22"] = (
     "DESIGN.md §4 C22",
 )
 
+DBIMPL = ("needs the whole database object: DbImpl construction alone exceeds CBMC (DbMemory::with_data on an empty buffer: "
+          "10 min / 7.5 GB unfinished; opening DbImpl over the concrete 552-byte image of an empty database: still in symbolic "
+          "execution after 11 min), so solver-based checking of the real code cannot be applied; ")
 NOT_APPLICABLE = {
+    "C02": DBIMPL + "the storage-level half (file content returns to the last committed state) is C01, the parseability half for arbitrary bytes is C07",
+    "C03": DBIMPL + "atomicity of whole queries/transactions on DbImpl has no smaller carrying unit",
+    "C05": DBIMPL + "the storage-level part (defragment + reopen preserve every record) is inside C04",
+    "C11": DBIMPL + "index maintenance is DbImpl method logic; only the underlying multimap is encodable (C10/C19)",
+    "C13": DBIMPL + "rollback is DbImpl method logic over its concrete sub-structures",
+    "C23": "quantifier is thread schedules; Kani/CBMC as used here do not model threads, and the mechanism has no sequential content to check",
+    "C24": "axum/tokio/HTTP handlers plus DbImpl queries inside an async server binary: not encodable as a bounded symbolic program with the installed tools",
+    "C25": "same as C24, plus audit-file I/O",
+    "C26": "server file operations behind async handlers; the pure part is six unvalidated Path::join lines with nothing to decide",
+    "C30": "liveness to quiescence: > 40 steps of three heap-carrying state machines; one request() on a symbolic node already costs ~130 s, a shorter bound says nothing about 'eventually'",
+    "C31": "the property is about tokio::spawn task interleavings; no scheduler model in Kani",
 }
 
 ALL_IDS = [json.loads(l)["id"] for l in open(os.path.join(VERIF, "properties.jsonl")) if l.strip()]
